@@ -42,7 +42,7 @@ func TestMain(m *testing.M) {
 
 func genTerm(rt *rapid.T, f int) Term {
 	// per-field kind weights (string, number, lacking) out of 20
-	w := [3][2]int{{14, 16}, {2, 15}, {8, 16}}[f]
+	w := [4][2]int{{14, 16}, {2, 15}, {8, 16}, {8, 16}}[f]
 	k := rapid.IntRange(0, 19).Draw(rt, "kind")
 	switch {
 	case k < w[0]:
@@ -74,6 +74,9 @@ func genDoc(rt *rapid.T) DocIn {
 	d := DocIn{ID: rapid.IntRange(0, len(docIDs)-1).Draw(rt, "doc")}
 	for f := range fieldPaths {
 		d.T[f] = genTerm(rt, f)
+	}
+	if d.T[1].K == "nomap" {
+		d.T[3] = Term{K: "absent"} // A is not a map: A.kk cannot exist
 	}
 	return d
 }
@@ -321,7 +324,7 @@ func TestHistoriesAvoiding(t *testing.T) {
 }
 
 // the alphabet of the exhaustive enumeration; every sequence starts with addfield(F0)
-func sdoc(id int, t0, t1 Term) DocIn { return DocIn{ID: id, T: [3]Term{t0, t1, {K: "absent"}}} }
+func sdoc(id int, t0, t1 Term) DocIn { return DocIn{ID: id, T: [4]Term{t0, t1, {K: "absent"}, {K: "absent"}}} }
 
 var (
 	sA     = Term{K: "s", I: 0}
